@@ -543,6 +543,8 @@ def alias_copy(rng, v, in_list=False):
         items = [swap(a) for a in v]
         rng.shuffle(items)
         return set(items) if isinstance(v, set) else frozenset(items)
+    if isinstance(v, datetime.datetime) and v.tzinfo is not None and rng.random() < 0.6:
+        return v.astimezone(datetime.timezone(datetime.timedelta(minutes=rng.choice([0, 60, -480, 345, 330]))))
     return v
 
 
@@ -759,7 +761,7 @@ def in_model_universe(v):
     try:
         V.canon(v)
         return True
-    except (AssertionError, TypeError):
+    except (AssertionError, TypeError, ValueError, OverflowError):
         return False
 
 
@@ -898,6 +900,13 @@ def m_dt_key_set(c):
     return _only(c, ("trunc",), ("key", "set")) or _only(c, ("tz",), ("key",))
 
 
+def m_trunc_tz(c):
+    """truncation is done in the datetime's own zone BEFORE the conversion to default_timezone: two renderings of one
+    instant in different zones truncate to different instants"""
+    return (c["spec"]["trunc"] is not None and "has_datetime" in c["features"] and c["exc"] is None
+            and (c["clause"] == "B" or (c["clause"] == "A" and any(x.startswith("tz@") for x in c["altered"]))))
+
+
 def m_collision(c):
     return c["clause"] in ("A", "B") and c["exc"] is None and _cleaning(c["spec"]) and "clean_collision" in c["features"]
 
@@ -936,6 +945,7 @@ MATCHERS = {
     "C11-TAG-SET": m_tag_set,
     "C11-MEMO-SET": m_memo_set,
     "C11-DATETIME-KEY-SET": m_dt_key_set,
+    "C11-TRUNC-BEFORE-TZ": m_trunc_tz,
 }
 
 
@@ -1073,6 +1083,7 @@ WITNESSES = [
     ("C11-TAG-SET", {"int:1"}, {1}, mk(sig=2), "nonempty"),
     ("C11-EXCL-SET", {"0"}, {b"0"}, mk(strty=True, excl=["bytes"]), "nonempty"),
     ("C11-SIG0-NAN", [float("nan")], [1.0], mk(sig=0), "raises:ValueError"),
+    ("C11-TRUNC-BEFORE-TZ", {"k": _dt(2024, 6, 1, 12, 40, 27, 0, 120)}, {"k": _dt(2024, 6, 1, 16, 25, 27, 0, 345)}, mk(trunc="hour"), "nonempty"),
 ]
 
 
@@ -1124,7 +1135,8 @@ def run(ctx):
             ({b"a": 1.5}, {b"a": 1.5}, mk(sig=1)), ({b"k": 1, "a": 1, "b": 1, b"z": 1}, {"k": 1, b"a": 1, b"b": 1}, mk(strty=True))]
     for a, b, sp in hand + [(w[1], w[2], w[3]) for w in WITNESSES]:
         for zip_ in (False, True):
-            mjobs.append((a, b, sp, zip_, 0.33, "hand", "hand"))
+            if in_model_universe(a) and in_model_universe(b):
+                mjobs.append((a, b, sp, zip_, 0.33, "hand", "hand"))
             ojobs.append((a, b, sp, zip_, "rand", "hand", []))
     with mp.get_context("fork").Pool(core.NCPU) as pool:
         mres = pool.map(model_case, mjobs, chunksize=16)
